@@ -21,3 +21,28 @@ PROPS["C13"] = {
          "quick": {"K": "2", "parts": "1"}, "thorough": {"K": "3", "parts": "1"}},
     ],
 }
+
+IOS_ACL = M + "/pkg/ios.VerifIOSACL"
+_cisco_level = "Bounded symbolic execution (gosx) of the real cisco.(*State).GetChanges -> alignVRFs, checkInterfaces, diffConfig, diffCmds, makeEqual, diffIOSACLs/diffASAACLs, markIOSPermitDenyBlocks, addCmds, delCmds, deleteUnused, myers.Diff on device/target configurations whose ACL lines are solver-chosen from a menu parsed by the real parser; the emitted script is executed on a device model, the result is compared with the target for a symbolic packet class and fed to the real GetChanges again."
+
+PROPS["C02"] = {
+    "explanation": _cisco_level + " C02: final ACL filters like the target for every packet class, second compare silent, 'no change' only for an equivalent device.",
+    "bounds": {"quick": "IOS: 1 interface, 1 ACL, device lines n<=3, target lines 1<=m<=3, menu of 7 lines without remark (all patterns of insert/delete/move/log change); n,m<=2 with menu of 8 incl. remark; device ACL name with/without -DRC- suffix; 8 packet classes",
+               "thorough": "n,m<=3 with menu of 12 lines (log, log-input, tcp eq 80/www, remark); n,m<=4 with menu of 6"},
+    "outside": "sizes above the bounds; line kinds outside the menu; several interfaces/VRFs sharing ACLs, crypto filter ACLs and routes (routes: see C05/C14 route harness); IOS-XE sequence numbers on the device side; real device behaviour beyond the model's rules",
+    "selftest": "ios_(acl|parse)", "selftest_thorough": "ios_|asa_",
+    "runs": [
+        {"entry": IOS_ACL, "quick": {"N": "3", "K": "7"}, "thorough": {"N": "3", "K": "12"},
+         "covers": ["move emitted (joined delete+add)", "no change reported", "changes emitted", "pure inserts and deletes around common lines"]},
+        {"entry": IOS_ACL, "quick": {"N": "2", "K": "8"}, "thorough": {"N": "4", "K": "6"}},
+    ],
+}
+PROPS["C14"] = dict(PROPS["C02"], explanation=_cisco_level + " C14: after every executed step of the script the verdict of a symbolic packet class on which old and new ACL agree equals that verdict (one SMT query per step).")
+PROPS["C08"] = dict(PROPS["C02"], explanation=_cisco_level + " C08: every reject rule of the device model (unknown ACL, used sequence number, duplicate entry modulo log, missing entry on delete, sub-command outside its mode, exit at top level) is an assertion at each script position.")
+PROPS["C10"] = {
+    "explanation": _cisco_level + " C10: the script is cut after a symbolic number k of steps, the model state is converted back into a device configuration, the real GetChanges runs again and its script is executed; end state must filter like the target and a third compare must be silent.",
+    "bounds": {"quick": "IOS ACL: n<=2, 1<=m<=2, menu of 8 incl. remark, every cut position", "thorough": "n,m<=3, menu of 7"},
+    "outside": "as C02; cuts inside the two halves of a joined move line (sent as one command)",
+    "selftest": "ios_acl",
+    "runs": [{"entry": IOS_ACL, "quick": {"N": "2", "K": "8", "cut": "1"}, "thorough": {"N": "3", "K": "7", "cut": "1"}, "covers": ["resumed after cut"]}],
+}
